@@ -61,6 +61,13 @@ func (c15) RunCase(c *fw.Ctx, rng *fw.RNG, batch, i int) {
 	U, L := base.Visits, base.Loads
 	c.Seen(fw.Mix(g.Root.Hash(), fw.HashString(s.String())), len(U) >= 4 && len(L) >= 1)
 	c.Max("max_visits_in_a_walk", int64(len(U)))
+	if len(U) > 4000 {
+		// Only the larger bounds of the thorough tier get here (the quick tier's largest walk has ≈ 1200 visits):
+		// every restricted walk below repeats this one with a full read-out at each visit, and a handful of such
+		// cases kept a batch busy for a quarter of an hour each. Counted, not judged.
+		c.Count("walks_too_large_to_enumerate_restrictions", 1)
+		return
+	}
 	if c.WantSample() && len(U) >= 4 && len(U) < 25 && len(L) >= 1 {
 		c.Sample(map[string]any{"selector": s.String(), "root": g.Root.Dump(), "unrestricted_visits": len(U), "loads": len(L)})
 	}
